@@ -11,13 +11,13 @@ MUTANTS = [
      'edits': [E(M, "            candidates.update(self._exceptions[pos].get(form, set()))", "            for exc in self._exceptions.values():\n                candidates.update(exc.get(form, set()))")]},
     {'name': 'uninitialized-drops-original', 'expect': 'C17-R1',
      'edits': [E(M, "        if not self._initialized:\n            result[pos] = {form}  # always include original when not initialized\n", "")]},
-    {'name': 'full-suppletion-allowed', 'expect': 'C17-R2',
+    {'name': 'full-suppletion-allowed', 'expect': 'C17-R1',
      'edits': [E(M, "            if form.endswith(suffix) and len(suffix) < len(form):", "            if form.endswith(suffix):")]},
-    {'name': 'suffix-le-form', 'expect': 'C17-R2',
+    {'name': 'suffix-le-form', 'expect': 'C17-R1',
      'edits': [E(M, "            if form.endswith(suffix) and len(suffix) < len(form):", "            if form.endswith(suffix) and len(suffix) <= len(form):")]},
     {'name': 'satellites-without-rules', 'expect': 'C17-R3',
      'edits': [E(M, "DETACHMENT_RULES[ADJ_SAT] = DETACHMENT_RULES[ADJ]", "DETACHMENT_RULES[ADJ_SAT] = []")]},
-    {'name': 'all-systems-rules', 'expect': 'C17-R3',
+    {'name': 'all-systems-rules', 'expect': 'C17-R4',
      'edits': [E(M, "            pos: [rule for rule in rules if rule[2] & _System.WN]", "            pos: [rule for rule in rules if rule[2] & _System.ALL]")]},
     {'name': 'lemma-is-last-form', 'expect': 'C17-R4',
      'edits': [E(M, "                lemma, *others = word.forms()", "                *others, lemma = word.forms()")]},
